@@ -9,6 +9,9 @@
 #include <glm/gtc/type_ptr.hpp>
 #include <glm/gtc/type_precision.hpp>
 #include <glm/ext/quaternion_double.hpp>
+#include <glm/ext/scalar_common.hpp>
+#include <glm/ext/vector_common.hpp>
+#include <cmath>
 #include <cstdio>
 #include <cstring>
 #include <cstdint>
@@ -87,6 +90,32 @@ int main(int argc, char** argv) {
 		printf("mat_length"); pi((long long)fm.length()); pi((long long)fm[0].length()); pi((long long)glm::mat2x3(fm).length()); printf("\n");
 		printf("mat_value_ptr"); pm(glm::make_mat3x2(glm::value_ptr(fm))); pm(glm::make_mat4(glm::value_ptr(dm))); printf("\n");
 		printf("mat_col_row"); pv(fm[2]); pf(fm[1][3]); pd(dm[3][0]); printf("\n");
+		// ---- functions with a std / bundled-fallback pair (language level) or an architecture-specific variant (GLM_ARCH)
+		{ float xf = (float)a[1], yf = (float)a[2]; double xd = a[3], yd = a[5]; float pf_ = std::fabs((float)a[9]) + 1e-3f; double pd_ = std::fabs(a[10]) + 1e-3;
+		  printf("round_f"); pf(glm::round(xf)); pf(glm::round(yf * 0.5f)); pf(glm::round(8388609.0f)); pf(glm::round(-0.49999997f)); pf(glm::round(3e9f)); printf("\n");
+		  printf("round_d"); pd(glm::round(xd)); pd(glm::round(yd * 0.5)); pd(glm::round(4503599627370497.0)); pd(glm::round(-0.49999999999999994)); printf("\n");
+		  printf("trunc_f"); pf(glm::trunc(xf)); pf(glm::trunc(yf * 0.5f)); pf(glm::trunc(-0.75f)); pf(glm::trunc(3e9f)); printf("\n");
+		  printf("trunc_d"); pd(glm::trunc(xd)); pd(glm::trunc(yd * 0.5)); pd(glm::trunc(-0.75)); pd(glm::trunc(1e300)); printf("\n");
+		  printf("isnan_isinf"); pi(glm::isnan(xf)); pi(glm::isinf(xf)); pi(glm::isnan(xd / (a[0] - a[0]))); pi(glm::isinf(xd / 0.0)); pi(glm::isnan(std::sqrt(-pf_))); pv(glm::isnan(glm::vec3(xf, std::sqrt(-pf_), yf))); pv(glm::isinf(glm::dvec2(xd, pd_ / 0.0))); printf("\n");
+		  printf("fmin_fmax_f"); pf(glm::fmin(xf, yf)); pf(glm::fmax(xf, yf)); pf(glm::fmin(xf, std::sqrt(-pf_))); pf(glm::fmax(std::sqrt(-pf_), yf)); pv(glm::fmin(glm::vec3(xf, yf, pf_), glm::vec3(yf, xf, 1.0f))); printf("\n");
+		  printf("fmin_fmax_d"); pd(glm::fmin(xd, yd)); pd(glm::fmax(xd, yd)); pd(glm::fmin(xd, std::sqrt(-pd_))); pd(glm::fmax(std::sqrt(-pd_), yd)); printf("\n");
+		  printf("log2_f"); pf(glm::log2(pf_)); pv(glm::log2(glm::vec2(pf_, pf_ * 37.0f))); printf("\n");
+		  printf("log2_d"); pd(glm::log2(pd_)); pv(glm::log2(glm::dvec2(pd_, pd_ * 37.0))); printf("\n");
+		  printf("asinh_f"); pf(glm::asinh(xf)); pv(glm::asinh(glm::vec2(yf, pf_))); printf("\n");
+		  printf("asinh_d"); pd(glm::asinh(xd)); printf("\n");
+		  printf("acosh_f"); pf(glm::acosh(1.0f + pf_)); printf("\n");
+		  printf("acosh_d"); pd(glm::acosh(1.0 + pd_)); printf("\n");
+		  printf("atanh_f"); pf(glm::atanh(pf_ / (1.0f + pf_))); printf("\n");
+		  printf("atanh_d"); pd(glm::atanh(pd_ / (1.0 + pd_))); printf("\n");
+		  // integer sign / abs: an x86 bit-trick variant and a generic variant exist
+		  signed char c8[4] = { (signed char)-128, (signed char)127, (signed char)(int)a[0], 0 }; short c16[4] = { (short)-32768, (short)32767, (short)(int)(a[1] * 100), 0 };
+		  int c32[4] = { (int)0x80000000, 0x7fffffff, (int)(a[2] * 1000), 0 }; long long c64[4] = { (long long)0x8000000000000000ull, 0x7fffffffffffffffll, (long long)(a[3] * 1e6), 0 };
+		  printf("isign"); for (int k = 0; k < 4; ++k) { pi(glm::sign(c8[k])); pi(glm::sign(c16[k])); pi(glm::sign(c32[k])); pi(glm::sign(c64[k])); } printf("\n");
+		  printf("isign_v"); pv(glm::sign(glm::ivec4(c32[0], c32[1], c32[2], c32[3]))); { glm::vec<2, glm::int8> s8 = glm::sign(glm::vec<2, glm::int8>(c8[0], c8[2])); pi(s8.x); pi(s8.y); }
+		    { glm::vec<3, glm::int16> s16 = glm::sign(glm::vec<3, glm::int16>(c16[0], c16[1], c16[2])); pi(s16.x); pi(s16.y); pi(s16.z); } { glm::vec<2, glm::int64> s64 = glm::sign(glm::vec<2, glm::int64>(c64[0], c64[2])); pi(s64.x); pi(s64.y); } printf("\n");
+		  printf("iabs"); for (int k = 1; k < 4; ++k) { pi(glm::abs(c8[k])); pi(glm::abs(c16[k])); pi(glm::abs(c32[k])); pi(glm::abs(c64[k])); } pv(glm::abs(glm::ivec3(c32[1], c32[2], c32[3]))); printf("\n");
+		  printf("fsign"); pf(glm::sign(xf)); pf(glm::sign(-0.0f)); pd(glm::sign(xd)); pv(glm::sign(glm::vec3(xf, yf, 0.0f))); printf("\n");
+		}
 	}
 	return 0;
 }
